@@ -10,10 +10,13 @@ A_COMMON = [
 ]
 
 
+SLUG_COMMON = ["harness/slug/ref_paths.go", "harness/slug/ref_fs.go"]
+
+
 def slug_group(name, harness, quick, thorough, **kw):
     g = {"name": name, "pkg": ".",
-         "sym_overlays": RT_SYM + ["harness/slug/ref_paths.go"] + harness,
-         "native_overlays": RT_NAT + ["rt/native_noenv.go", "harness/slug/ref_paths.go"] + harness,
+         "sym_overlays": RT_SYM + ["models/vfs.go", "models/tarchan.go", "models/env_sym.go"] + SLUG_COMMON + harness,
+         "native_overlays": RT_NAT + ["native/env_native.go"] + SLUG_COMMON + harness,
          "quick": quick, "thorough": thorough}
     g.update(kw)
     return g
@@ -216,3 +219,99 @@ CHECKS["C19"] = {
                  reach=["parsed", "source-accepted", "valid-subpath"]),
     ],
 }
+
+
+def unpack_items(tier):
+    if tier == "quick":
+        cfg = [(1, 5, 5, 4), (2, 2, 2, 6)]
+    else:
+        cfg = [(1, 7, 7, 16), (2, 4, 4, 16), (3, 2, 2, 16)]
+    out = [{"id": "unpack-K%d-%dx%d" % (k, a, b), "entry": "HarnessUnpackSafety", "params": {"K": k, "nName": a, "nLink": b}, "shards": sh, "_w": 50} for (k, a, b, sh) in cfg]
+    if tier == "quick":
+        seg = [("HarnessUnpackSeg", {"K": 1, "sName": 3, "sLink": 4}, 4), ("HarnessUnpackSeg", {"K": 2, "sName": 1, "sLink": 2}, 4),
+               ("HarnessUnpackStep", {"K": 1, "sName": 2, "sLink": 2, "sPre": 3}, 6)]
+    else:
+        seg = [("HarnessUnpackSeg", {"K": 1, "sName": 4, "sLink": 5}, 16), ("HarnessUnpackSeg", {"K": 2, "sName": 3, "sLink": 4}, 16), ("HarnessUnpackSeg", {"K": 3, "sName": 2, "sLink": 3}, 16),
+               ("HarnessUnpackStep", {"K": 1, "sName": 4, "sLink": 3, "sPre": 4}, 16), ("HarnessUnpackStep", {"K": 2, "sName": 3, "sLink": 3, "sPre": 3}, 16)]
+    for (entry, params, sh) in seg:
+        out.append({"id": "%s-%s" % (entry[7:].lower(), "-".join("%s%d" % kv for kv in sorted(params.items()))), "entry": entry, "params": params, "shards": sh, "_w": 60})
+    return out
+
+
+CHECKS["C01"] = {
+    "registered": False,
+    "level_text": "Bounded model checking by symbolic execution of the real Unpack / NewUnpackInfo / RestoreInfo / validSymlink (and path/filepath under them) over a model filesystem and a typed tar channel: for every sequence of K archive entries whose names and link targets are arbitrary byte strings (no NUL) of the stated lengths, with every supported and several unsupported type flags, no filesystem mutation has a physical location outside dst, whether Unpack succeeds or fails.",
+    "level_note": "Trusted: go/ssa, gosym, z3, the vfs model (closed world, root privileges, symlink resolution per component; validated by replaying sampled paths and every counterexample against the real OS in a chroot arena with real archive/tar), the tar channel contract (any header can arrive; byte-level framing outside).",
+    "explanation": "entry sequences x names x link targets are symbolic; the monitor is the model filesystem's mutation log compared segment-wise with dst; natively: before/after snapshot of the arena around dst",
+    "anchors": ["(*github.com/hashicorp/go-slug.Packer).Unpack", "github.com/hashicorp/go-slug/internal/unpackinfo.NewUnpackInfo", "(*github.com/hashicorp/go-slug.Packer).validSymlink",
+                "(github.com/hashicorp/go-slug/internal/unpackinfo.UnpackInfo).RestoreInfo"],
+    "bounds": {"quick": "raw byte names: K=1 entry name 0..5 bytes, link target 0..5 bytes; K=2: 0..2 / 0..2; 6 type flags, mode 9 free bits. Segment-structured (names of 1 free byte, segments name/../././empty, optional leading slash): K=1 name <=3 segments, target <=4; K=2 name 1, target <=2. Inductive step: destination already holding one arbitrary symlink (target <=3 segments, absolute or not) and maybe a directory, then one entry (name <=2 segments). dst=/w/d (absolute, clean) with sibling /w/d2, victim files and directory",
+               "thorough": "raw: K=1: 0..7 / 0..7; K=2: 0..4 / 0..4; K=3: 0..2 / 0..2; segments: K=1 (4,5), K=2 (3,4), K=3 (2,3); step: K=1 (name 4, pre-link 4), K=2 (3,3)"},
+    "assumptions": A_COMMON + ["A-tar: archive/tar + gzip deliver the headers written (names without NUL); byte-level stream corruption is outside", "vfs: root privileges, ELOOP after 8 hops, closed world /w"],
+    "groups": [
+        slug_group("unpack", ["harness/slug/unpack.go"], quick=unpack_items("quick"), thorough=unpack_items("thorough"),
+                   reach=["unpack-ok", "unpack-error", "link-created", "step-done"], sample_every=60),
+    ],
+}
+
+
+def pack_items(tier, opts_list):
+    out = []
+    sizes = [(1, 4, 1), (2, 3, 4)] if tier == "quick" else [(1, 6, 2), (2, 4, 8), (3, 2, 16)]
+    for opts in opts_list:
+        for (n, nl, sh) in sizes:
+            out.append({"id": "pack-N%d-l%d-o%d" % (n, nl, opts), "entry": "HarnessPack", "params": {"N": n, "nLink": nl, "opts": opts}, "shards": sh, "_w": 10 * n * n})
+    return out
+
+
+PACK_ASSUME = A_COMMON + ["A-tar (typed channel; names without NUL)", "vfs model (root privileges, closed world /w, whole-second times)"]
+PACK_NOTE = "Trusted: go/ssa, gosym, z3, vfs model and tar channel (every counterexample and a sample of paths are replayed against the real OS in a chroot arena with real archive/tar + gzip). filepath.Walk, filepath.Rel/Abs/Join, slices.Sort run from their SSA."
+
+CHECKS["C20"] = {
+    "registered": False,
+    "level_text": "Bounded model checking by symbolic execution of the real Pack / packWalkFn / resolveExternalLink / checkFileMode / validSymlink over the model filesystem: for every tree of N nodes (free names, kinds, permissions, times, link targets as arbitrary byte strings) and every option set, the returned file list equals the written header names in order and the returned size equals the bytes copied = sum of regular-entry sizes.",
+    "level_note": PACK_NOTE,
+    "explanation": "tree shapes, names, kinds, link targets symbolic; Pack runs from SSA incl. filepath.Walk; metadata compared with what the tar channel received (natively: with the decoded real slug)",
+    "anchors": ["(*github.com/hashicorp/go-slug.Packer).Pack", "(*github.com/hashicorp/go-slug.Packer).packWalkFn", "(*github.com/hashicorp/go-slug.Packer).packWalkFn$1", "github.com/hashicorp/go-slug.checkFileMode"],
+    "bounds": {"quick": "N=1 node (link target 1..4 bytes), N=2 nodes (targets 1..3 bytes); 4 option sets (plain, dereference, ignore, both); names 1 free byte, permissions 9 free bits",
+               "thorough": "N=1 (targets 1..6), N=2 (1..4), N=3 (1..2); 4 option sets"},
+    "assumptions": PACK_ASSUME,
+    "groups": [slug_group("pack", ["harness/slug/unpack.go", "harness/slug/pack.go"], quick=pack_items("quick", [0, 1, 2, 3]), thorough=pack_items("thorough", [0, 1, 2, 3]),
+                          reach=["pack-ok", "pack-error", "entries-written", "link-entry"], sample_every=30)],
+}
+
+CHECKS["C02"] = dict(CHECKS["C20"], **{
+    "level_text": "Bounded model checking by symbolic execution of Pack composed with Unpack through the typed tar channel: for every tree of N nodes whose links are relative, unpacking the produced slug into an empty directory yields the same relative paths with the same kind, content, permission bits, link targets and (files, directories) modification times.",
+    "anchors": ["(*github.com/hashicorp/go-slug.Packer).Pack", "(*github.com/hashicorp/go-slug.Packer).Unpack", "(github.com/hashicorp/go-slug/internal/unpackinfo.UnpackInfo).RestoreInfo"],
+    "bounds": {"quick": "N=1, N=2 nodes as for C20; option sets plain and ignore (dereferencing replaces links by copies and is compared under C09)", "thorough": "N<=3"},
+    "assumptions": PACK_ASSUME + ["modification times are whole seconds (sub-second rounding by archive/tar is part of A-tar)", "names needing PAX headers (long, non-ASCII beyond one byte) are outside the bound"],
+    "groups": [slug_group("pack", ["harness/slug/unpack.go", "harness/slug/pack.go"], quick=pack_items("quick", [0, 2]), thorough=pack_items("thorough", [0, 2]),
+                          reach=["pack-ok", "round-trip"], sample_every=30)],
+})
+
+CHECKS["C05"] = dict(CHECKS["C20"], **{
+    "level_text": "Bounded model checking by symbolic execution of Pack (and Unpack on its output): every relative link entry of a produced slug, read at its own archive position, stays inside the archive root (segment-wise); absolute link entries never appear without an allow-list; Unpack accepts every slug Pack produced from a tree with relative links.",
+    "anchors": ["(*github.com/hashicorp/go-slug.Packer).Pack", "(*github.com/hashicorp/go-slug.Packer).validSymlink", "(*github.com/hashicorp/go-slug.Packer).resolveExternalLink"],
+    "groups": [slug_group("pack", ["harness/slug/unpack.go", "harness/slug/pack.go"], quick=pack_items("quick", [0, 1]), thorough=pack_items("thorough", [0, 1, 3]),
+                          reach=["pack-ok", "link-entry", "fed-back"], sample_every=30)],
+})
+
+
+CHECKS["C19"]["groups"].append(
+    slug_group("pack", ["harness/slug/unpack.go", "harness/slug/pack.go"],
+               quick=[dict(it, no_panic=True) for it in pack_items("quick", [1, 3])], thorough=[dict(it, no_panic=True) for it in pack_items("thorough", [0, 1, 2, 3])],
+               reach=["pack-ok"], sample_every=30, isolated=True))
+
+
+# C04 also runs the whole-Unpack harnesses (its assertions are tagged C04-)
+def unpack_items_c04(tier):
+    its = [dict(it) for it in unpack_items(tier) if "step" not in it["id"]]
+    return its
+
+
+CHECKS["C04"]["groups"].append(
+    slug_group("unpack", ["harness/slug/unpack.go"], quick=unpack_items_c04("quick"), thorough=unpack_items_c04("thorough"),
+               reach=["unpack-ok", "link-created"], sample_every=60))
+CHECKS["C04"]["bounds"]["quick"] += "; whole Unpack: K=1 entry name 0..5 / target 0..5 bytes, K=2 0..2 / 0..2, segment-structured names (<=3 segments) and targets (<=4 segments) for K=1, (1,2) for K=2"
+CHECKS["C04"]["bounds"]["thorough"] += "; whole Unpack as C01 thorough"
+CHECKS["C04"]["anchors"] += ["(*github.com/hashicorp/go-slug.Packer).Unpack"]
